@@ -1,0 +1,52 @@
+/* This software is distributed under BSD 3-clause license (see LICENSE file).
+ *
+ * Verification hooks. Everything in this file is inert unless TAPKEE_VERIF
+ * is defined: TAPKEE_VERIF_TICK(site) then expands to nothing.
+ */
+#pragma once
+
+#ifdef TAPKEE_VERIF
+
+#include <random>
+
+namespace tapkee
+{
+namespace verif
+{
+//! Handler invoked from loops that have no a-priori iteration bound
+typedef void (*tick_function)(const char* site);
+
+inline tick_function& tick_handler()
+{
+    static tick_function handler = nullptr;
+    return handler;
+}
+
+inline void tick(const char* site)
+{
+    tick_function handler = tick_handler();
+    if (handler)
+        handler(site);
+}
+
+//! Process-global generator used by tapkee::random_shuffle under the guard
+inline std::mt19937& shuffle_engine()
+{
+    static std::mt19937 engine(5489u);
+    return engine;
+}
+
+inline void shuffle_seed(unsigned int seed)
+{
+    shuffle_engine().seed(seed);
+}
+} // namespace verif
+} // namespace tapkee
+
+#define TAPKEE_VERIF_TICK(site) ::tapkee::verif::tick(site)
+
+#else
+
+#define TAPKEE_VERIF_TICK(site)
+
+#endif
